@@ -652,6 +652,8 @@ class Interp(ExprMixin, StmtMixin):
             if not args:
                 return []
             v = args[0]
+            if isinstance(v, range) and len(v) > 4096:
+                raise Unsupported("UNSUPPORTED %s: list(range) of %d elements" % (w, len(v)))
             if isinstance(v, (list, tuple, range, dict)):
                 return list(v)
             raise Unsupported("list(%s) at %s" % (type(v).__name__, w))
